@@ -1,6 +1,7 @@
 package rules
 
 import (
+	"go/token"
 	"sort"
 	"strings"
 
@@ -59,8 +60,29 @@ func runC17(c *core.Ctx) {
 	}
 	cg := c.P.CG()
 	for _, n := range []string{"put", "get", "delete"} {
-		f := c.Fn(pkStorage, "CacheDB."+n)
+		f := c.FnAny(pkStorage, "CacheDB."+n, "CacheDB."+strings.ToUpper(n[:1])+n[1:])
 		if f == nil {
+			continue
+		}
+		if token.IsExported(f.Name()) {
+			// the private worker was inlined into the exported method: the prefix is the constant there
+			okK := false
+			for _, ci := range ir.Calls(f, func(ci ssa.CallInstruction) bool {
+				h := ci.Common().StaticCallee()
+				return h != nil && h.Name() == "makePrefixedKey"
+			}) {
+				if a := ci.Common().Args; len(a) == 3 {
+					if k, isK := ir.Strip(a[1]).(*ssa.Const); isK && k.Value != nil && k.Value.ExactString() == stStorage.ExactString() {
+						okK = true
+					}
+					if cv, isCv := a[1].(*ssa.Convert); isCv {
+						if k, isK := cv.X.(*ssa.Const); isK && k.Value != nil && k.Value.ExactString() == stStorage.ExactString() {
+							okK = true
+						}
+					}
+				}
+			}
+			c.Decide(okK, "C17.confined", f, "every caller of CacheDB."+n+" passes the constant ST_STORAGE", c.P.Rel(f.Pos()), "inlined: the key is built with the constant prefix in "+f.Name())
 			continue
 		}
 		sites := 0
